@@ -88,7 +88,7 @@ def multiText (k : MultiKind) (cts : List Str) : Str :=
 mutual
 def text : Err → Str
   | .leaf _ k => leafText k
-  | .barrier _ smsg _ => stripMarkers smsg
+  | .barrier _ m _ => stripMarkers m.smsg
   | .wrap _ k c => wrapText k (text c)
   | .second _ c _ => text c
   | .multi _ k cs => multiText k (textList cs)
